@@ -38,8 +38,8 @@ def meta(tier):
                  '= distinct expression text.'),
         'exhaustive': False,
         'extra': {'exhaustive_part': f'all operator chains up to length {k} ({sum(14 ** i for i in range(1, k + 1))} chains) with operand variants'},
-        'assumptions': ['vocabulary avoids lexical quirks outside the property: callee names have >= 2 characters, no +-signed '
-                        'literals, exponents always signed, ASCII whitespace only, bracket names without trailing blanks'],
+        'assumptions': ['vocabulary avoids lexical quirks outside the property: callee names have >= 2 characters, '
+                        'a sign touching the digits of a literal is a plus-signed literal or the unary minus, exponents always signed, ASCII whitespace only, bracket names without trailing blanks'],
     }
 
 
@@ -175,7 +175,7 @@ def print_ws(e, rnd, p=0):
         if k == 'number':
             if v < 0:
                 return '(0 - ' + refexpr.num_text(-v) + ')'
-            return refexpr.num_text(v)
+            return ('+' if rnd.random() < 0.15 else '') + refexpr.num_text(v)
         if k == 'string':
             return refexpr.str_text(v, rnd.choice("'\""))
         if k == 'variable':
@@ -194,7 +194,7 @@ def print_ws(e, rnd, p=0):
 
 
 SOUP = OPS + ['(', ')', ',', '!', '-', 'aa', 'bb', 'fn(', 'max(', '1', '2.5', '1e+3', "'s'", '"t"', '[x y]', '(', ')', 'aa', '1',
-              '@', '=', '&', '|', '.', ':', '1e5', "'open", '#']
+              '@', '=', '&', '|', '.', ':', '1e5', "'open", '#', '+5', '+2.5', '-3', '+1e+3', '+aa', '+(']
 
 
 def run_shard(spec, acc):
